@@ -423,7 +423,7 @@ def tr_refined():
     if srcs[:3] != ['m = self', 'has_boundaries = self.boundaries is not None', 'has_subdomains = self.subdomains is not None']:
         raise TranslateError('refined: prologue ' + repr(srcs[:3]))
     top = body[3]
-    if not (isinstance(top, ast.If) and t2.src(top.test) == 'isinstance(times_or_ix, int)'):
+    if not (isinstance(top, ast.If) and t2.src(top.test) == 'np.ndim(times_or_ix) == 0'):
         raise TranslateError('refined: dispatch')
     if [t2.src(s) for s in top.orelse] != ['m = m._adaptive(times_or_ix)']:
         raise TranslateError('refined: adaptive branch')
